@@ -24,6 +24,7 @@ STO   := global | static | extern | tls | local | slocal | param
 OP    := add|sub|mul|div|mod|and|or|xor|shl|shr|preinc|predec|postinc|postdec
 -/
 import ChibiVerif.Model.C16Qual
+import ChibiVerif.Model.C16Declr
 import ChibiVerif.Spec.C16QualSpec
 import ChibiVerif.Model.C16Typing
 import ChibiVerif.Model.Codegen
@@ -142,17 +143,12 @@ def primC : Prim → String
   | .int => "int" | .uint => "unsigned int" | .long => "long" | .ulong => "unsigned long" | .float => "float"
   | .double => "double" | .ldouble => "long double"
 
-/-- the declarator around `name` (empty for a type name) -/
-def declrC (name : String) : Declr → String
-  | .name => name
-  | .ptr d => "*" ++ declrC name d
-  | .arr d n =>
-    let inner := declrC name d
-    (match d with | .ptr _ => "(" ++ inner ++ ")" | _ => inner) ++ "[" ++ toString n ++ "]"
-  | .fn d =>
-    let inner := declrC name d
-    (match d with | .ptr _ => "(" ++ inner ++ ")" | _ => inner) ++ "(void)"
-  | .paren d => "(" ++ declrC name d ++ ")"
+def tokC (name : String) : C16Declr.DTok → String
+  | .star => "*" | .lp => "(" | .rp => ")" | .ident => name | .lb => "[" | .num n => toString n | .rb => "]" | .void_ => "void"
+
+/-- the declarator around `name` (empty for a type name): the text of the token list `C16Declr.toks d`, the very list
+    theorem `C16_declarator_tokens` is about -/
+def declrC (name : String) (d : Declr) : String := String.join ((C16Declr.toks d).map (tokC name))
 
 mutual
 def specC : TSpec → String
